@@ -72,6 +72,7 @@ var glTargets = []glTarget{
 	{pkg: "service", recv: "packetHandler", name: "validatePacket", opaque: map[string]bool{"SplitAddr": true, "ResolveUDPAddr": true, "ensureConnectionError": true, "String": true}},
 	{pkg: "service", recv: "streamHandler", name: "handleConnection", trace: true, opaque: map[string]bool{"getProxyRequest": true, "proxyConnection": true, "FuncStreamDialer": true, "Copy": true, "absorbProbe": true}},
 	{pkg: "service", recv: "", name: "findEntry", listElem: "CipherEntry", opaque: map[string]bool{"Unpack": true}, drop: map[string]bool{"debugTCP": true}},
+	{pkg: "service", recv: "", name: "findAccessKey", listElem: "CipherEntry", opaque: map[string]bool{"Unpack": true, "MultiReader": true, "NewReader": true, "ReadFull": true, "Errorf": true, "Since": true}, drop: map[string]bool{"debugTCP": true}},
 	{pkg: "service/metrics", recv: "measuredConn", name: "Read"},
 	{pkg: "service/metrics", recv: "measuredConn", name: "Write"},
 	{pkg: "service/metrics", recv: "measuredConn", name: "WriteTo"},
@@ -1080,7 +1081,7 @@ func (f *glFn) call(c *ast.CallExpr, value bool) string {
 	if rn == "" && f.t.opaque[fn.Name()] {
 		var ats []string
 		var as []string
-		for i := 0; i < sig.Params().Len(); i++ {
+		for i := range c.Args { // all of them: a variadic function is a parameter of the arity it is called with
 			ats = append(ats, f.leanType(f.typeOf(c.Args[i])))
 			as = append(as, f.expr(c.Args[i]))
 		}
@@ -1289,6 +1290,21 @@ func (f *glFn) cond(e ast.Expr, ind int) string {
 		return f.lastRes
 	}
 	return f.fail(e, "condition with a state-changing call")
+}
+
+// isTranslatedCall: a call of another translated function
+func (f *glFn) isTranslatedCall(e ast.Expr) bool {
+	c, ok := e.(*ast.CallExpr)
+	if !ok {
+		return false
+	}
+	fn, ok := f.calleeObj(c).(*types.Func)
+	if !ok || fn.Pkg() == nil {
+		return false
+	}
+	_, rn := recvNamed(fn)
+	_, ok = f.g.fns[strings.TrimPrefix(fn.Pkg().Path(), "github.com/Jigsaw-Code/outline-ss-server/")+"."+rn+"."+fn.Name()]
+	return ok
 }
 
 // isOpaqueCall: a call of a function that is a parameter of the translation
@@ -1794,6 +1810,22 @@ func (f *glFn) stmt(s ast.Stmt, ind int) {
 				}
 			}
 		}
+		if len(x.Rhs) == 1 && len(x.Lhs) == 2 {
+			if c, ok := x.Rhs[0].(*ast.CallExpr); ok {
+				if fn, ok := f.calleeObj(c).(*types.Func); ok && fn.Pkg() != nil && fn.Pkg().Path() == "io" && fn.Name() == "ReadFull" && f.t.opaque["ReadFull"] {
+					// n, err := io.ReadFull(r, buf): the callee FILLS buf — the one aliasing the translation makes explicit:
+					// the parameter returns the new contents of the buffer (of the same length, an assumption of the ties)
+					f.tmp++
+					t := fmt.Sprintf("t__%d", f.tmp)
+					f.addExtra("io_ReadFull", f.leanType(f.typeOf(c.Args[0]))+" → Int → (List UInt8) × Int × (Option String)")
+					f.emit(ind, "let "+t+" := (io_ReadFull "+f.expr(c.Args[0])+" (GoRT.len "+f.expr(c.Args[1])+"))")
+					f.emit(ind, f.assign(c.Args[1], t+".1"))
+					f.emit(ind, f.defOrAssign(x, 0, t+".2.1"))
+					f.emit(ind, f.defOrAssign(x, 1, t+".2.2"))
+					return
+				}
+			}
+		}
 		if len(x.Rhs) == 1 && len(x.Lhs) > 1 {
 			// tuple-valued call
 			f.tmp++
@@ -1806,6 +1838,22 @@ func (f *glFn) stmt(s ast.Stmt, ind int) {
 				}
 				if i < len(x.Lhs)-1 {
 					proj += ".1"
+				}
+				if obj := f.objOf(x.Lhs[i]); obj != nil && isPtrResult(obj.Type()) && f.isTranslatedCall(x.Rhs[0]) {
+					// a pointer a translated function returns: Option
+					z := f.g.zero(obj.Type(), f.t.strBytes)
+					if p, ok := obj.Type().(*types.Pointer); ok && isNamed(p.Elem(), "container/list", "Element") {
+						z = "⟨0, " + f.t.listElem + ".zero⟩"
+					}
+					f.emit(ind, f.defOrAssign(x, i, "("+proj+").getD "+z))
+					_, had := f.ptrLocal[obj]
+					flag := f.nilFlag(obj)
+					if had {
+						f.emit(ind, flag+" := ("+proj+").isNone")
+					} else {
+						f.emit(ind, "let mut "+flag+" := ("+proj+").isNone")
+					}
+					continue
 				}
 				if obj := f.objOf(x.Lhs[i]); obj != nil && isPtrToRepoStruct(obj.Type()) && f.t.nilPtrs && f.isOpaqueCall(x.Rhs[0]) {
 					// a pointer from an opaque function: the value it points to and whether it is nil
